@@ -126,6 +126,13 @@ var c19Funcs = []c19Fn{
 	{"vdr/didweb/util.go", "", "percentDecodeChar"},
 	{"vdr/didweb/util.go", "", "isHex"},
 	{"vdr/didweb/util.go", "", "unhex"},
+	// ---- HTTP response cache (model NutsModel/C19/HttpCache.lean)
+	{"http/client/caching.go", "responseCache", "insert"},
+	{"http/client/caching.go", "responseCache", "pop"},
+	{"http/client/caching.go", "responseCache", "removeExpiredEntries"},
+	{"http/client/caching.go", "responseCache", "get"},
+	{"http/client/caching.go", "CachingRoundTripper", "RoundTrip"},
+	{"http/client/caching.go", "CachingRoundTripper", "cacheResponse"},
 }
 
 func recvName(fd *ast.FuncDecl) string {
